@@ -99,14 +99,18 @@ class Lazy(V):
 
 
 class Str(V):
-    """byte string (z3 Seq of 8-bit) for str/String/OsString/Vec<u8>; `kind` for documentation"""
-    __slots__ = ("t", "kind")
+    """byte string (str / String / OsString / CString / Vec<u8> / Cow<str>) with a concrete number of symbolic bytes"""
+    __slots__ = ("items", "kind")
 
-    def __init__(self, t, kind="str"):
-        self.t, self.kind = t, kind
+    def __init__(self, items, kind="str"):
+        self.items, self.kind = tuple(items), kind
 
     def __repr__(self):
-        return "Str(%s)" % z3.simplify(self.t)
+        out = []
+        for b in self.items:
+            sb = z3.simplify(b)
+            out.append("%02x" % sb.as_long() if z3.is_bv_value(sb) else "?")
+        return "Str(%s)" % " ".join(out)
 
 
 class ListV(V):
@@ -701,9 +705,9 @@ class Engine:
             c = decode_rust_literal(t[1:-1])
             return Int(z3.BitVecVal(ord(c.decode("utf-8")) if c else 0, 32), "char")
         if t.startswith('"') and t.endswith('"'):
-            return Str(bytes_to_seq(decode_rust_literal(t[1:-1])), "str")
+            return Str(bytes_to_items(decode_rust_literal(t[1:-1])), "str")
         if t.startswith('b"') and t.endswith('"'):
-            return Str(bytes_to_seq(decode_rust_literal(t[2:-1])), "bytes")
+            return Str(bytes_to_items(decode_rust_literal(t[2:-1])), "bytes")
         if t.startswith("fn "):
             return FnV(t[3:])
         if t.startswith("ZeroSized: "):
@@ -743,6 +747,8 @@ class Engine:
                 typed = [c for c in cands if self.prog.impl_info(c)[1] == parts[-2] or strip_generics(c.name[6:]).split("::")[-2:-1] == [parts[-2]]]
                 if len(typed) == 1:
                     f = typed[0]
+                elif not typed and len(cands) == 1:
+                    f = cands[0]
             elif len(cands) == 1:
                 f = cands[0]
         if f is None:
@@ -954,7 +960,7 @@ class Engine:
         if isinstance(v, Ref):
             v = self.load(st, v.cell, v.path)
         if isinstance(v, Str):
-            return Int(z3.Int2BV(z3.Length(v.t), 64), "usize")
+            return Int(z3.BitVecVal(len(v.items), 64), "usize")
         if isinstance(v, Agg) and v.ty == "array":
             return Int(z3.BitVecVal(len(v.fields), 64), "usize")
         if isinstance(v, Lazy):
@@ -1209,9 +1215,12 @@ class Engine:
         return self.finish_call(st, dest, ret_bb, [(None, rv)])
 
     def finish_call(self, st, dest, ret_bb, res):
-        """res: list of (extra condition or None, value) alternatives, or a value."""
+        """res: a value, or a list of (extra condition or None, value|'diverge') alternatives, or
+        ('multi', [(cond, ('store', ref, new value, return value))...]) for alternatives with a side effect."""
         if isinstance(res, V):
             res = [(None, res)]
+        if isinstance(res, tuple) and len(res) == 2 and res[0] == "multi":
+            res = res[1]
         out = []
         alts = []
         for c, v in res:
@@ -1221,8 +1230,11 @@ class Engine:
             s2 = st if i == len(alts) - 1 else st.clone()
             if c is not None:
                 s2.pc.append(c)
-            if v == "diverge" or ret_bb is None:
-                out += self.end(s2, "panic" if v == "diverge" else "diverge", "call does not return")
+            if isinstance(v, tuple) and v and v[0] == "store":
+                self.store(s2, v[1].cell, v[1].path, v[2])
+                v = v[3]
+            if isinstance(v, str) and v == "diverge" or ret_bb is None:
+                out += self.end(s2, "panic" if isinstance(v, str) and v == "diverge" else "diverge", "call does not return")
                 continue
             self.write_place(s2, dest, v)
             s2.frames[-1].bb = ret_bb
@@ -1257,12 +1269,5 @@ def decode_rust_literal(s):
     return bytes(out)
 
 
-BYTE = z3.BitVecSort(8)
-BSEQ = z3.SeqSort(BYTE)
-
-
-def bytes_to_seq(b):
-    if len(b) == 0:
-        return z3.Empty(BSEQ)
-    units = [z3.Unit(z3.BitVecVal(x, 8)) for x in b]
-    return units[0] if len(units) == 1 else z3.Concat(*units)
+def bytes_to_items(b):
+    return tuple(z3.BitVecVal(x, 8) for x in b)
